@@ -3,4 +3,5 @@ From Coq Require Import ZArith.
 Require Import ExtrOcamlBasic.
 Extraction Language OCaml.
 Extraction "model.ml" tokenize kind_code tok_lit lex parse_bytes tokenize_limits print_doc
-  doc_depth doc_fields limits_ok_b ranges_ok_b roundtrip_ok_b Z.add Nat.add.
+  doc_depth doc_fields limits_ok_b ranges_ok_b roundtrip_ok_b string_stable_b description_stable_b
+  doc_strings_stable_b doc_printable_b Z.add Nat.add.
